@@ -79,6 +79,7 @@ pub struct CheckOut {
     pub defs_checked: u64,
     pub max_live: u64,
     pub spills: u64,
+    pub refills_checked: u64,
     pub moves: u64,
     pub own_table_ops: u64,
     pub fallback_ops: u64,
@@ -89,7 +90,7 @@ pub struct CheckOut {
 
 pub fn check(rec: &Rec) -> CheckOut {
     let n = rec.ops.len();
-    let mut out = CheckOut { violations: vec![], defs_checked: 0, max_live: 0, spills: 0, moves: 0, own_table_ops: 0, fallback_ops: 0, table_disagreements: 0, blocks: 0, vregs: 0 };
+    let mut out = CheckOut { violations: vec![], defs_checked: 0, max_live: 0, spills: 0, refills_checked: 0, moves: 0, own_table_ops: 0, fallback_ops: 0, table_disagreements: 0, blocks: 0, vregs: 0 };
     let map: HashMap<&str, &str> = rec.mapping.iter().map(|(v, p)| (v.as_str(), p.as_str())).collect();
     // dense ids for virtual registers
     let mut ids: HashMap<String, usize> = HashMap::new();
@@ -249,52 +250,112 @@ pub fn check(rec: &Rec) -> CheckOut {
             }
         }
     }
-    // spill slots
+    // spill slots: (op index, is_store, vreg, slot)
     let mut slot_of: BTreeMap<String, BTreeSet<u64>> = BTreeMap::new();
-    let mut reg_of_slot: BTreeMap<u64, BTreeSet<String>> = BTreeMap::new();
+    let mut slot_ops: Vec<Option<(bool, String, u64)>> = vec![None; n];
     let mut frame: Option<u64> = None;
     let mut spill_bytes: u64 = 0;
     for i in 0..n {
-        let text = rec.ops[i].trim();
+        let full = rec.ops[i].trim();
+        let text = full.split(';').next().unwrap_or(full).trim();
+        let comment = format!("{} {}", full.split_once(';').map(|x| x.1).unwrap_or(""), rec.comments[i]);
         if text.starts_with("cfei") {
             frame = text.split_whitespace().filter_map(|t| t.trim_start_matches('i').parse::<u64>().ok()).last();
-            for part in rec.comments[i].split("register spills ").skip(1) {
+            for part in comment.split("register spills ").skip(1) {
                 if let Some(b) = part.split_whitespace().next().and_then(|x| x.parse::<u64>().ok()) {
                     spill_bytes += b;
                 }
             }
         }
-        let c = &rec.comments[i];
-        if c.contains("[spill/refill]: spill") || c.contains("[spill/refill]: refill from spill") {
-            // sw $$locbase vX iN   |   lw vX $$locbase iN   (offset register may be $$tmp for far slots)
+        let is_store = comment.contains("[spill/refill]: spill");
+        let is_refill = comment.contains("[spill/refill]: refill from spill");
+        if is_store || is_refill {
+            // sw $$locbase vX iN   |   lw vX $$locbase iN   (far slots go through an address register: not tracked)
             let toks: Vec<&str> = text.split_whitespace().collect();
-            if toks.len() >= 4 && toks.iter().any(|t| *t == "$$locbase") {
+            if toks.len() >= 4 && toks.iter().any(|t| *t == "$$locbase") && matches!(toks[0], "sw" | "lw") {
                 let v = toks.iter().skip(1).find(|t| t.starts_with('$') && is_virtual(t)).map(|s| s.to_string());
                 let off = toks.last().and_then(|t| t.trim_start_matches('i').parse::<u64>().ok());
                 if let (Some(v), Some(off)) = (v, off) {
                     slot_of.entry(v.clone()).or_default().insert(off);
-                    reg_of_slot.entry(off).or_default().insert(v);
+                    slot_ops[i] = Some((toks[0] == "sw", v, off));
                 }
             }
         }
     }
     out.spills = slot_of.len() as u64;
-    for (slot, regs) in &reg_of_slot {
-        if regs.len() > 1 {
-            out.violations.push(("spill-slot-shared".into(), format!("spill slot {slot} (words from $$locbase) is used by {regs:?}")));
+    // which virtual register's value can a slot hold at each refill? forward data flow over the
+    // blocks: a spill store sets the slot's content to {vreg}; at a refill of vreg X from slot N
+    // every reaching content of N must be X (two simultaneously live values in one slot show up
+    // as a refill that can see the other value)
+    if out.spills > 0 {
+        type State = BTreeMap<u64, BTreeSet<String>>;
+        let mut preds: Vec<Vec<usize>> = vec![vec![]; nb];
+        for (b, (_, e)) in blocks.iter().enumerate() {
+            for &s2 in &rec.succs[*e - 1] {
+                if s2 < n {
+                    preds[block_of[s2]].push(b);
+                }
+            }
         }
-        if let Some(f) = frame {
-            if slot * 8 + 8 > f {
-                out.violations.push(("spill-slot-outside-frame".into(), format!("spill slot {slot} lies outside the {f}-byte frame")));
+        let transfer = |b: usize, st: &mut State, report: Option<&mut Vec<(String, String)>>| {
+            let mut report = report;
+            for i in blocks[b].0..blocks[b].1 {
+                if let Some((store, v, slot)) = &slot_ops[i] {
+                    if *store {
+                        st.insert(*slot, [v.clone()].into_iter().collect());
+                    } else if let Some(rep) = report.as_deref_mut() {
+                        if let Some(content) = st.get(slot) {
+                            if content.iter().any(|c| c != v) {
+                                rep.push(("spill-slot-holds-another-value-at-refill".into(), format!("op {i} `{}` refills {v} from slot {slot}, which can hold {content:?} there", rec.ops[i])));
+                            }
+                        }
+                    }
+                }
             }
-            if spill_bytes > 0 && slot * 8 + 8 + spill_bytes < f + 8 && slot * 8 < f.saturating_sub(spill_bytes).saturating_sub(7) {
-                out.violations.push(("spill-slot-overlaps-locals".into(), format!("spill slot {slot} lies below the spill area (frame {f}, spill bytes {spill_bytes})")));
+        };
+        let mut outs: Vec<State> = vec![State::new(); nb];
+        let mut changed = true;
+        let mut rounds = 0;
+        while changed && rounds < 200 {
+            changed = false;
+            rounds += 1;
+            for b in 0..nb {
+                let mut st = State::new();
+                for &p in &preds[b] {
+                    for (k, v) in &outs[p] {
+                        st.entry(*k).or_default().extend(v.iter().cloned());
+                    }
+                }
+                transfer(b, &mut st, None);
+                if st != outs[b] {
+                    outs[b] = st;
+                    changed = true;
+                }
             }
+        }
+        for b in 0..nb {
+            let mut st = State::new();
+            for &p in &preds[b] {
+                for (k, v) in &outs[p] {
+                    st.entry(*k).or_default().extend(v.iter().cloned());
+                }
+            }
+            let mut rep = vec![];
+            transfer(b, &mut st, Some(&mut rep));
+            out.refills_checked += slot_ops[blocks[b].0..blocks[b].1].iter().filter(|o| matches!(o, Some((false, _, _)))).count() as u64;
+            out.violations.extend(rep);
         }
     }
-    for (v, slots) in &slot_of {
-        if slots.len() > 1 {
-            out.violations.push(("spilled-register-has-several-slots".into(), format!("{v} is spilled to slots {slots:?}")));
+    for (_, slots) in &slot_of {
+        for slot in slots {
+            if let Some(f) = frame {
+                if slot * 8 + 8 > f {
+                    out.violations.push(("spill-slot-outside-frame".into(), format!("spill slot {slot} lies outside the {f}-byte frame")));
+                }
+                if spill_bytes > 0 && slot * 8 < f.saturating_sub(spill_bytes) {
+                    out.violations.push(("spill-slot-overlaps-locals".into(), format!("spill slot {slot} lies below the spill area (frame {f}, spill bytes {spill_bytes})")));
+                }
+            }
         }
     }
     out
@@ -337,6 +398,7 @@ fn absorb(rec: &Rec, what: &str, res: &mut ShardResult, seen: &mut BTreeSet<u64>
     if o.spills > 0 {
         res.count("functions_with_spills");
         res.max("max_spilled_registers", o.spills);
+        res.add("spill_refills_checked", o.refills_checked);
     }
     if (o.vregs >= 8 && o.blocks >= 2) || o.spills > 0 {
         res.note_nontrivial(h);
@@ -347,6 +409,44 @@ fn absorb(rec: &Rec, what: &str, res: &mut ShardResult, seen: &mut BTreeSet<u64>
     if res.samples.is_empty() && o.spills > 0 {
         res.sample(json!({"function_ops": rec.ops.len(), "virtual_registers": o.vregs, "blocks": o.blocks, "spilled": o.spills, "max_live": o.max_live, "first_ops": rec.ops.iter().take(12).collect::<Vec<_>>(), "mapping_sample": rec.mapping.iter().take(8).collect::<Vec<_>>()}));
     }
+}
+
+/// A script that keeps `n` values alive at once (defined from the two inputs, all used after the
+/// last definition, half of them also inside a loop), so that release builds (after mem2reg)
+/// exceed the allocatable registers and spill. Returns (source, script data, expected result).
+fn pressure_script(rng: &mut rand::rngs::StdRng) -> (String, Vec<u8>, u64) {
+    use rand::Rng;
+    let n = rng.gen_range(40..=90usize);
+    let x: u64 = rng.gen();
+    let y: u64 = rng.gen();
+    let (a, b) = (x & 0xffff, y & 0xffff);
+    let mut src = String::from("script;\nfn main(x: u64, y: u64) -> u64 {\n    let a: u64 = x & 0xffffu64;\n    let b: u64 = y & 0xffffu64;\n");
+    let mut vals = vec![];
+    for k in 0..n {
+        let c: u64 = rng.gen_range(1..1000);
+        let d: u64 = rng.gen_range(0..1000);
+        let (text, v) = match rng.gen_range(0..4) {
+            0 => (format!("a * {c}u64 + b + {d}u64"), a * c + b + d),
+            1 => (format!("(a ^ {c}u64) + b * {d}u64"), (a ^ c) + b * d),
+            2 => (format!("(a + {c}u64) * (b + {d}u64)"), (a + c) * (b + d)),
+            _ => (format!("(a | {c}u64) + (b & {d}u64)"), (a | c) + (b & d)),
+        };
+        src.push_str(&format!("    let v{k}: u64 = {text};\n"));
+        vals.push(v);
+    }
+    let rounds: u64 = rng.gen_range(1..4);
+    let mut order: Vec<usize> = (0..n).collect();
+    for i in (1..n).rev() {
+        order.swap(i, rng.gen_range(0..=i));
+    }
+    let (in_loop, after) = order.split_at(n / 2);
+    src.push_str("    let mut i: u64 = 0u64;\n    let mut acc: u64 = 0u64;\n");
+    src.push_str(&format!("    while i < {rounds}u64 {{\n        acc = acc + {};\n        i += 1u64;\n    }}\n", in_loop.iter().map(|k| format!("v{k}")).collect::<Vec<_>>().join(" + ")));
+    src.push_str(&format!("    acc + {}\n}}\n", after.iter().map(|k| format!("v{k}")).collect::<Vec<_>>().join(" + ")));
+    let expected = rounds * in_loop.iter().map(|k| vals[*k]).sum::<u64>() + after.iter().map(|k| vals[*k]).sum::<u64>();
+    let mut data = x.to_be_bytes().to_vec();
+    data.extend(y.to_be_bytes());
+    (src, data, expected)
 }
 
 fn shard(ctx: &ShardCtx) -> ShardResult {
@@ -361,6 +461,36 @@ fn shard(ctx: &ShardCtx) -> ShardResult {
     let mut i = ctx.first_index;
     while clock.left() {
         let mut rng = ctx.rng(i);
+        if i % 4 == 1 {
+            // synthetic high-pressure script: must spill in release, and must still compute
+            // the value calculated here
+            let (src, data, expected) = pressure_script(&mut rng);
+            res.count("mode.synthetic_pressure");
+            for profile in Profile::BOTH {
+                ctx.begin_case(i, &format!("// C08 {} synthetic pressure\n{src}", profile.name()), &res);
+                let (r, recs) = collect(|| catch(AssertUnwindSafe(|| am.compile("gencase", &src, profile))));
+                ctx.end_case();
+                match r {
+                    Ok(Ok(c)) => {
+                        let obs = run_script(&c.pkg.bytecode.bytes, &data);
+                        res.count("pressure_scripts_executed");
+                        if !matches!(&obs.outcome, Outcome::ReturnData(b) if b == &expected.to_be_bytes().to_vec()) {
+                            res.violation(format!("allocated-program-computes-wrong-value:{:016x}", hash64(src.as_bytes())), format!("[{}] synthetic pressure script returned {} instead of {expected:016x}", profile.name(), obs.short()), json!({"source": src, "data": hex::encode(&data), "expected": expected}));
+                        }
+                        am.remove(&c)
+                    }
+                    _ => {
+                        res.count("rejected");
+                        let _ = std::fs::remove_dir_all(am.last_dir());
+                    }
+                }
+                for rec in &recs {
+                    absorb(rec, &format!("{} build of a synthetic pressure script", profile.name()), &mut res, &mut seen);
+                }
+            }
+            i += 1;
+            continue;
+        }
         let mut scratch = ShardResult::default();
         // weight the register-pressure mode up
         let mode = if i % 3 == 0 { crate::swgen_gen::Mode::Pressure } else { crate::swgen_gen::Mode::pick(&mut rng) };
@@ -388,6 +518,21 @@ fn shard(ctx: &ShardCtx) -> ShardResult {
 
 fn replay(v: &Value) -> ShardResult {
     let mut res = ShardResult::default();
+    if let (Some(src), Some(data), Some(expected)) = (v.get("source").and_then(|x| x.as_str()), v.get("data").and_then(|x| x.as_str()), v.get("expected").and_then(|x| x.as_u64())) {
+        let work = work_dir("C08").join("replay");
+        clean_dir(&work);
+        let mut am = Amortised::new(&work);
+        for profile in Profile::BOTH {
+            res.evaluations += 1;
+            if let Ok(Ok(c)) = catch(AssertUnwindSafe(|| am.compile("gencase", src, profile))) {
+                let obs = run_script(&c.pkg.bytecode.bytes, &hex::decode(data).unwrap_or_default());
+                if !matches!(&obs.outcome, Outcome::ReturnData(b) if b == &expected.to_be_bytes().to_vec()) {
+                    res.violation(format!("allocated-program-computes-wrong-value:{:016x}", hash64(src.as_bytes())), format!("[{}] returned {} instead of {expected:016x}", profile.name(), obs.short()), v.clone());
+                }
+            }
+        }
+        return res;
+    }
     match serde_json::from_value::<Rec>(v["record"].clone()) {
         Ok(rec) => {
             let mut seen = BTreeSet::new();
@@ -407,7 +552,8 @@ fn subcommand(args: &[String]) -> Option<i32> {
     let work = work_dir("c08dump");
     clean_dir(&work);
     let mut am = Amortised::new(&work);
-    let (_, recs) = collect(|| am.compile("gencase", &src, Profile::Debug));
+    let profile = if std::env::var("C08_RELEASE").is_ok() { Profile::Release } else { Profile::Debug };
+    let (_, recs) = collect(|| am.compile("gencase", &src, profile));
     // the last records belong to the program's own functions
     for rec in recs.iter().rev().take(2) {
         let o = check(rec);
